@@ -21,6 +21,7 @@ import (
 	"os"
 	"path/filepath"
 	"sync"
+	"time"
 
 	"github.com/go-gl/glfw/v3.1/glfw"
 	"github.com/gordonklaus/portaudio"
@@ -341,8 +342,14 @@ func run(c *rig.Ctx) {
 						_ = k
 					}
 				}
+				// a consumer that is late for a while (the sample queue fills up) ...
+				if n == 2 || n == 3 || n == 60 {
+					time.Sleep(20 * time.Millisecond)
+				}
 			}
 			glfw.OnPoll = func(w *glfw.Window, n int64) {
+				// ... and an emulator goroutine that pauses (the queue drains)
+				time.Sleep(12 * time.Millisecond)
 				if int(n) >= frames {
 					w.SetShouldClose(true)
 				}
